@@ -65,6 +65,7 @@ def check(repo: Repo) -> Result:
     forward_rule(repo, res, inv)
     dropped_rule(repo, res, inv)
     named_param_rule(repo, res, inv)
+    kwargs_lookup_rule(repo, res, inv)
     slot_rule(repo, res, inv)
     out_rule(repo, res, inv)
     methods_rule(repo, res)
@@ -281,6 +282,39 @@ def _unpacked_and_forwarded(fn, pname, call):
             return set(names) <= used
     return False
 
+
+
+def kwargs_lookup_rule(repo, res, inv):
+    """C06-R10: a handler that lets positional arguments through (*args) cannot learn the value of one of NumPy's
+    positional-or-keyword parameters by looking its name up in **kwargs: the caller may pass it positionally
+    (np.linalg.svd(a, False, False)), NumPy then computes one thing and the handler post-processes another."""
+    import json
+    import os
+
+    r10 = res.rule("C06-R10", "handlers with *args never read a positional-capable NumPy parameter out of **kwargs", floor=30)
+    with open(os.path.join(os.path.dirname(os.path.dirname(os.path.abspath(__file__))), "spec", "numpy_defaults.json"), encoding="utf-8") as f:
+        positional = json.load(f)["positional"]
+    for h in inv:
+        fn = h.fn
+        if not (fn.vararg and fn.kwarg):
+            continue
+        names = set()
+        for t in h.targets:
+            names |= set(positional.get(t, ()))
+        names -= set(fn.params)
+        bad = []
+        for n in walk_no_nested(fn.node):
+            key = None
+            if isinstance(n, ast.Call) and isinstance(n.func, ast.Attribute) and n.func.attr in ("get", "pop", "setdefault") and norm(n.func.value) == fn.kwarg and n.args and isinstance(n.args[0], ast.Constant):
+                key = n.args[0].value
+            elif isinstance(n, ast.Subscript) and norm(n.value) == fn.kwarg and isinstance(n.slice, ast.Constant) and isinstance(n.ctx, ast.Load):
+                key = n.slice.value
+            elif isinstance(n, ast.Compare) and len(n.ops) == 1 and isinstance(n.ops[0], (ast.In, ast.NotIn)) and norm(n.comparators[0]) == fn.kwarg and isinstance(n.left, ast.Constant):
+                key = n.left.value
+            if key in names:
+                bad.append((n, key))
+        g = f"@{_g(fn.gate)}" if fn.gate else ""
+        res.check(not bad, f"{fn.name}{g}:kwargs-lookup", fn.where(bad[0][0]) if bad else fn.where(), f"{fn.name} reads NumPy's parameter {bad[0][1]!r} from **{fn.kwarg} although it also forwards *{fn.vararg}: passed positionally the value is invisible to the handler, which then treats NumPy's result as if the default had been used" if bad else "", "a named parameter in the handler's signature", [k for _, k in bad], rid=r10)
 
 
 # ---------------------------------------------------------------------------
@@ -921,6 +955,7 @@ MUTANTS = [
     Mutant("handler-default-differs", AF, "around", "decimals=0", "decimals=1", ("C06-R8",)),
     Mutant("array-equal-none-sentinel", AF, "array_equal", 'getattr(a1, "units", NULL_UNIT)', 'getattr(a1, "units", None)', ("C06-R7",)),
     Mutant("histogram2d-range-units-of-x-twice", AF, "_histogram2d", 'units=[getattr(x, "units", None), getattr(y, "units", None)]', 'units=[getattr(x, "units", None), getattr(x, "units", None)]', ("C06-R3",)),
+    Mutant("svd-reads-compute-uv-from-kwargs", AF, "linalg_svd", "def linalg_svd(a, full_matrices=True, compute_uv=True, *args, **kwargs):", "def linalg_svd(a, *args, **kwargs):\n    full_matrices, compute_uv = kwargs.pop('full_matrices', True), kwargs.get('compute_uv', True)", ("C06-R10",)),
     Mutant("around-out-arm-drops-decimals", AF, "around", "np.asarray(a), decimals=decimals, out=np.asarray(out)", "np.asarray(a), out=np.asarray(out)", ("C06-R9",)),
     Mutant("histogram-live-arm-drops-bins", AF, "_histogram", "            bins=bins,\n            range=range,\n            density=density,\n            weights=np.asarray(weights) if weights is not None else None,\n        )", "            range=range,\n            density=density,\n            weights=np.asarray(weights) if weights is not None else None,\n        )", ("C06-R9",)),
     Mutant("histogram2d-live-arm-drops-weights", AF, "_histogram2d", "            density=density,\n            weights=np.asarray(weights) if weights is not None else None,\n        )", "            density=density,\n        )", ("C06-R9",)),
